@@ -4,7 +4,7 @@ use crate::{
   StdResult,
 };
 use laythe_core::{
-  hooks::{GcHooks, Hooks}, if_let_obj, managed::Trace, module::{Module, Package}, object::{LyNative, LyStr, Native, NativeMetaBuilder, ObjectKind}, signature::{Arity, ParameterBuilder, ParameterKind}, to_obj_kind, val, value::{Value, VALUE_NIL}, Call, LyError, ObjRef, Ref
+  hooks::{GcHooks, Hooks}, if_let_obj, managed::Trace, module::{Module, Package}, object::{LyNative, LyStr, Native, NativeMetaBuilder, ObjectKind}, signature::{Arity, ParameterBuilder, ParameterKind}, to_obj_kind, val, value::{Value, VALUE_NIL}, Call, LyError, LyResult, ObjRef, Ref
 };
 use std::io::Write;
 
@@ -43,20 +43,17 @@ const ASSERTNE_META: NativeMetaBuilder = NativeMetaBuilder::fun("assertNe", Arit
   ])
   .with_stack();
 
-fn to_str(hooks: &mut Hooks, value: Value) -> LyStr {
-  hooks
-    .get_method(value, hooks.manage_str("str"))
-    .map(|method| hooks.call_method(value, method, &[]))
-    .map(|string| {
-      if let Call::Ok(ok) = string {
-        if_let_obj!(ObjectKind::String(string) = (ok) {
-          return string;
-        });
-      }
+fn to_str(hooks: &mut Hooks, value: Value) -> LyResult<LyStr> {
+  let method = hooks.get_method(value, hooks.manage_str("str"))?;
+  let result = hooks.call_method(value, method, &[])?;
 
-      hooks.manage_str(format!("{string:?}"))
-    })
-    .expect("No str method")
+  if_let_obj!(ObjectKind::String(string) = (result) {
+    return Ok(string);
+  });
+
+  // a user defined str() may answer something other than a string
+  // such a value is written in its builtin form
+  Ok(hooks.manage_str(result.to_string()))
 }
 
 #[derive(Debug)]
@@ -119,8 +116,8 @@ impl LyNative for AssertEq {
       return Call::Ok(VALUE_NIL);
     }
 
-    let arg0 = to_str(hooks, args[0]);
-    let arg1 = to_str(hooks, args[1]);
+    let arg0 = to_str(hooks, args[0])?;
+    let arg1 = to_str(hooks, args[1])?;
 
     create_error!(
       self.error,
@@ -164,8 +161,8 @@ impl LyNative for AssertNe {
       return Call::Ok(VALUE_NIL);
     }
 
-    let arg0 = to_str(hooks, args[0]);
-    let arg1 = to_str(hooks, args[1]);
+    let arg0 = to_str(hooks, args[0])?;
+    let arg1 = to_str(hooks, args[1])?;
 
     create_error!(
       self.error,
